@@ -135,7 +135,7 @@ theorem paste_keeps_notPaste (ms : List (Bytes × DT)) (n : Nat) :
 theorem C10_expanded_paste_free (roots : List DT) (rootFile : Bytes) (banned : List Kind)
     (content : Bytes → Bytes) (b : Built) (h : build roots rootFile banned content = .ok b) :
     Tree.allList notPaste b.expanded = true := by
-  obtain ⟨ms, dirs, fuel, ps, _, _, _, _, hp, he, _, _⟩ := build_stages roots rootFile banned content b h
+  obtain ⟨ms, dirs, fuel, ps, _, _, _, _, hp, he, _, _, _⟩ := build_stages roots rootFile banned content b h
   rw [he]
   exact forest_all notPaste ps.ctx ((paste_keeps_notPaste ms fuel).1 dirs {} ps rfl hp)
 end Tied
